@@ -74,7 +74,10 @@ pub fn gen_single(rng: &mut Rng) -> Case {
     let depth = c.stack.len() as i64;
     let mlen = c.memory.len() as i64;
     let plen = c.parent.as_ref().map(|m| m.len() as i64).unwrap_or(0);
-    let near = |rng: &mut Rng, n: i64| -> Word { match rng.below(6) { 0 => n, 1 => n - 1, 2 => n + 1, 3 => 0, 4 => -1, _ => rng.range(0, n.max(1)) } };
+    // around the bound n; now and then an in-range value plus a multiple of 2^8 / 2^16 / 2^32 (aliases under a truncating cast) or its negation
+    let near = |rng: &mut Rng, n: i64| -> Word { match rng.below(8) { 0 => n, 1 => n - 1, 2 => n + 1, 3 => 0, 4 => -1,
+        5 => rng.range(0, n.max(1)).wrapping_add(*rng.pick(&[1i64 << 8, 1 << 16, 1 << 32, 1 << 33, 3 << 32, 0x7FFF_FFFF_0000_0000, i64::MIN])),
+        6 => -rng.range(1, n.max(1)), _ => rng.range(0, n.max(1)) } };
     // op specific, mostly valid operands (70 %), otherwise arbitrary words
     if rng.chance(7, 10) {
         match op {
@@ -181,7 +184,7 @@ fn snippet(rng: &mut Rng, out: &mut Vec<Op>) {
     match rng.below(30) {
         0..=4 => out.push(push(rng.word())),
         5..=9 => { out.push(push(rng.word())); out.push(push(rng.word())); out.push(rng.pick(&[ADD, SUB, MUL, DIV, MOD, EQ, GT, LT, GTE, LTE, AND, OR, BAND, BOR]).clone()); }
-        10 => { out.push(push(rng.word())); out.push(push(rng.range(-1, 65))); out.push(rng.pick(&[SHL, SHR, SHRI]).clone()); }
+        10 => { out.push(push(rng.word())); out.push(push(if rng.chance(1, 8) { rng.range(0, 63) + (*rng.pick(&[1i64, 2, 3]) << 32) } else { rng.range(-1, 65) })); out.push(rng.pick(&[SHL, SHR, SHRI]).clone()); }
         11 => out.push(rng.pick(&[DUP, SWAP, POP, NOT]).clone()),
         12 => { out.push(push(rng.range(0, 4))); out.push(rng.pick(&[DUPF, SWAPI, DROP, LODS]).clone()); }
         13 => { out.push(push(rng.small())); out.push(push(rng.range(0, 4))); out.push(STOS); }
@@ -434,6 +437,14 @@ pub fn gen_crypto(rng: &mut Rng) -> Case {
             let mut sig = sigb.to_vec();
             let mut id: i64 = i32::from(rid) as i64;
             match rng.below(8) { 0 => sig[rng.below(64) as usize] ^= 1, 1 => { sig = vec![0; 64]; } 2 => { sig = vec![0xFF; 64]; } 3 => id = *rng.pick(&[-1, 4, 255, i64::MAX, 1 << 32]), 4 => id = (id + 1) % 4, 5 => digest[0] ^= 1, _ => {} }
+            if rng.chance(1, 5) {
+                // the high-S twin (r, n - s) with the other parity: a different encoding that recovers the same key
+                const N: [u8; 32] = [0xFF, 0xFF, 0xFF, 0xFF, 0xFF, 0xFF, 0xFF, 0xFF, 0xFF, 0xFF, 0xFF, 0xFF, 0xFF, 0xFF, 0xFF, 0xFE,
+                                     0xBA, 0xAE, 0xDC, 0xE6, 0xAF, 0x48, 0xA0, 0x3B, 0xBF, 0xD2, 0x5E, 0x8C, 0xD0, 0x36, 0x41, 0x41];
+                let mut borrow = 0i32;
+                for k in (0..32).rev() { let d = N[k] as i32 - sig[32 + k] as i32 - borrow; if d < 0 { sig[32 + k] = (d + 256) as u8; borrow = 1; } else { sig[32 + k] = d as u8; borrow = 0; } }
+                if (0..=3).contains(&id) { id ^= 1; }
+            }
             push_words(&mut c.ops, &words_of_bytes(&digest));
             push_words(&mut c.ops, &words_of_bytes(&sig));
             c.ops.push(push(id)); c.ops.push(RSECP);
@@ -452,6 +463,11 @@ fn vary_gas(rng: &mut Rng, c: &mut Case) {
         2 => { c.cost = Cost::Const(*rng.pick(&[1u64 << 62, u64::MAX, u64::MAX / 2, (1 << 63) + 1])); c.limit = *rng.pick(&[u64::MAX, u64::MAX - 1, 1 << 63]); return; }
         3 => { let t = (0..rng.range(1, 6)).map(|_| (rng.pick(DATA_OPS).clone(), rng.range(1, 9) as u64)).map(|(o, g)| { let b: u8 = essential_asm::ToOpcode::to_opcode(&o).into(); (b, g) }).collect(); c.cost = Cost::Table(t, rng.range(1, 3) as u64); }
         4 => { let t = vec![(0x90u8, *rng.pick(&[0u64, 5, 1 << 40])), (0x01u8, rng.range(1, 4) as u64)]; c.cost = Cost::Table(t, 1); }
+        // everything up to and including Compute is free, so that the children share a limit of exactly u64::MAX (or just below),
+        // and the other operations are so dear that a few children together exceed 2^64
+        5 if !has_back => { let t = vec![(0x01u8, 0u64), (0x90, 0), (0x91, 0)];
+               c.cost = Cost::Table(t, *rng.pick(&[1u64 << 63, 1 << 62, (1 << 63) - 1, (1 << 62) + 1, u64::MAX / 3 + 1]));
+               c.limit = *rng.pick(&[u64::MAX, u64::MAX, u64::MAX - 1, 1 << 63]); return; }
         _ => {}
     }
     c.limit = match rng.below(20) { 0 => 0, 1 => 1, 2 | 3 => rng.range(2, 30) as u64, 4 | 5 => u64::MAX, 6..=8 => (c.limit as i64 + rng.range(-3, 3)).max(0) as u64, _ => c.limit };
@@ -470,7 +486,9 @@ pub fn run(a: &Args) {
     if a.only.is_some() { ev.push("show_models"); }   // replay: also print the model's result
     let mut out = Out::new("From EB Require Import Corr.RunVm.", "vm_case", &ev);
     out.only = a.only;
-    let all = crate::e_asm::all_ops();
+    // VerifyEd25519 / RecoverSecp256k1 are answered by oracle tables that only the crypto family fills: keep them out of
+    // the random op stream (Sha256 is computed by the model itself when the table has no entry)
+    let all: Vec<Op> = crate::e_asm::all_ops().into_iter().filter(|o| !matches!(o, Op::Crypto(asm::Crypto::VerifyEd25519) | Op::Crypto(asm::Crypto::RecoverSecp256k1))).collect();
     let mut id = 0u64;
     let mut emit = |out: &mut Out, c: &Case, enabled: bool| {
         if !enabled { id += 1; return; }
@@ -506,6 +524,7 @@ pub fn run(a: &Args) {
         if sweep && rng.chance(1, 10) {
             // every intermediate state: cost 1 and limit k stops before the (k+1)-th operation
             c.cost = Cost::Const(1);
+            c.limit = c.limit.min(30_000);      // a loop must end by running out of gas within what the model can replay
             let full = run_case(&c);
             for k in 0..full.steps.min(25) { let mut ck = c.clone(); ck.limit = k; emit(&mut out, &ck, true); }
         }
@@ -538,5 +557,8 @@ pub fn corpus() -> Vec<Case> {
         let mut ops = vec![]; for _ in 0..n { ops.extend([push(1), push(1), REP]); }
         v.push(Case { family: "limits", ops, limit: 20_000, ..Default::default() });
     }
+    // the children's sum passes 2^64 while the limit they share is exactly u64::MAX (everything before them is free)
+    v.push(Case { family: "compute", ops: vec![push(2), COM, push(7), POP, COME], cost: Cost::Table(vec![(0x01, 0), (0x90, 0), (0x91, 0)], 1 << 63), limit: u64::MAX, ..Default::default() });
+    v.push(Case { family: "compute", ops: vec![push(4), COM, push(7), POP, COME], cost: Cost::Table(vec![(0x01, 0), (0x90, 0), (0x91, 0)], 1 << 62), limit: u64::MAX, ..Default::default() });
     v
 }
